@@ -30,6 +30,8 @@ CLAIMED = {
          "Lean theorems over session model + correspondence + wall-clock oracle for Stop", "5 C15"),
  "C16": ("proof", "Lean theorems: every admin kind, unparsable or not permitted in the state, yields exactly one Reject (by sequence number, or naming tag 34) and leaves loggedOn/settings/timers/cancellation untouched; correspondence with damaged messages in every state.",
          "Lean theorems over session model + correspondence + reject oracle", "5 C16"),
+ "C19": ("proof", "Lean: call log of DefaultHandler.send = all-types handlers then type handlers in registration order up to the first refusal; any refusal or ToBytes error => nothing enqueued; the save handler registered first runs first and its failure stops the send; inbound: all-types then own-type; session level: every numbered message is in the store under its own number (C19_saved, all histories). Correspondence with the real DefaultHandler / Session incl. failing store.",
+         "Lean theorems over pool model + session store-trace + correspondence + store/handler oracles", "5 C19"),
 }
 NOT_YET = {}
 
